@@ -420,10 +420,15 @@ class ConfigLoader(BaseLoader):
                 "cannot check a configuration an abstract type")
         BaseLoader.__init__(self)
         self.schema = schema
+        self._app_schema = schema
         self._private_schema = False
         self._including = []   # URLs of the resources being parsed
 
     def loadResource(self, resource):
+        # %import extends the schema for one load only: start every load
+        # from the schema this loader was created with
+        self.schema = self._app_schema
+        self._private_schema = False
         sm = self.createSchemaMatcher()
         # start clean even if an earlier load on this loader was interrupted
         self._including = []
